@@ -123,7 +123,27 @@ def run_obligation(prop: str, module: str, ob, known: list, workdir: str, seed: 
                 continue
             res.update(status="violation", violation=replay_doc)
             break
+        if v == "refuted_post":
+            # all-models obligation: the set reached over the exhausted path tree differs from the
+            # oracle's; replay = concrete enumeration of every draw sequence against the real code
+            en = _run_spec({**base, "mode": "enumerate"}, workdir, f"{ob.name}.enum", ob.timeout * 3 + 120)
+            res["replays"] += en.get("runs", 0)
+            post = r.get("post") or {}
+            doc = {"property": prop, "obligation": ob.name, "module": module, "harness": ob.harness, "cfg": ob.cfg, "clause": post.get("clause"), "detail": post.get("detail"), "script": [], "found_by": "set reached over the exhausted symbolic path tree vs the oracle's enumerator", "replayed": f"concrete enumeration of all {en.get('runs')} draw sequences: " + json.dumps(en.get("post"))[:600]}
+            confirmed = en.get("complete") and (en.get("post") or {}).get("ok") is False and (en.get("post") or {}).get("clause") == post.get("clause")
+            if not confirmed:
+                res.update(status="harness_error", message=f"all-models verdict {post.get('clause')} not confirmed by concrete enumeration: {json.dumps(en)[:400]}", witness=doc)
+            elif post.get("clause") in open_known and post.get("clause") not in excluded:
+                f = open_known[post["clause"]]
+                res["known"].append({"id": f.get("id"), "signature": post["clause"], "what": f.get("what"), "witness": doc})
+                res["status"] = "discharged"
+                res["known_hits"] = {post["clause"]: 1}
+            else:
+                res.update(status="violation", violation=doc)
+            break
         if v == "confirmed":
+            if r.get("post"):
+                res["post"] = {"ok": r["post"].get("ok"), "programs_reached": r["post"].get("collected"), "comparison": r["post"].get("detail")}
             if ob.expect == "refute":
                 res.update(status="harness_error", message="witness query came back confirmed: the expected witness does not exist (vacuity guard failed)")
             else:
@@ -277,6 +297,10 @@ def write_evidence(mod, prop, tier, seed, results, wall, nviol, only=None):
             s["confirmed_apart_from_listed_findings"] = r["known_hits"]
         if r.get("witness") and r["expect"] == "refute":
             s["witness_script"] = r["witness"].get("script")
+        if r.get("post"):
+            s["all_models"] = r["post"]
+        if r.get("smt"):
+            s["engine_B"] = r["smt"]
         if r.get("message"):
             s["message"] = r["message"][:300]
         samples.append(s)
